@@ -92,6 +92,7 @@ func (sc *StateCache) commit(bc *BlockCache) {
 	sc.lock.Lock()
 	defer sc.lock.Unlock()
 
+	verifYield("commit.linkcheck")
 	_, ok := sc.hashCache.Get(bc.blockHash)
 	if ok {
 		// block already committed
@@ -102,6 +103,7 @@ func (sc *StateCache) commit(bc *BlockCache) {
 	defer bc.mu.Unlock()
 	ts := time.Now()
 	for key, v := range bc.cache {
+		verifYield("commit.cacheget")
 		bvsi, ok := sc.cache.Get(key)
 		if !ok {
 			var err error
@@ -116,11 +118,14 @@ func (sc *StateCache) commit(bc *BlockCache) {
 		if v.data != nil {
 			v.data = v.data.Clone()
 		}
+		verifYield("commit.add")
 		bvs.Add(bc.blockHash, v)
 
+		verifYield("commit.cacheput")
 		sc.cache.Add(key, bvs)
 	}
 
+	verifYield("commit.publish")
 	sc.commitRound(bc.round, bc.prevBlockHash, bc.blockHash)
 
 	sc.hits += bc.hits
@@ -142,6 +147,7 @@ func (sc *StateCache) Get(key, blockHash string) (Value, bool) {
 	// sc.mu.RLock()
 	// defer sc.mu.RUnlock()
 
+	verifYield("get.cache")
 	blockValues, ok := sc.cache.Get(key)
 	if !ok {
 		logging.Logger.Debug("state cache get - key not found", zap.String("key", key))
@@ -156,12 +162,15 @@ func (sc *StateCache) Get(key, blockHash string) (Value, bool) {
 		// Read the link to the previous block before the block's own entry: commit()
 		// publishes the link only after all of the block's entries, so a missing entry
 		// seen after the link means the block did not write the key.
+		verifYield("get.link")
 		prevHash, linked := sc.hashCache.Get(curHash)
+		verifYield("get.entry")
 		vv, ok := bvs.Get(curHash)
 		if ok {
 			v := vv.(valueNode)
 			if curHash != blockHash {
 				// remember the answer for the queried block, never overwrite its own entry
+				verifYield("get.memo")
 				bvs.ContainsOrAdd(blockHash, v)
 			}
 
